@@ -61,7 +61,7 @@ def main(wt: str, sub: str, sid: str, needs: str) -> int:
         json.dump({"id": sid, "property": prop, "needs": needs, "checks": [prop],
                    "demo": "demo.py",
                    "origin": "independent sub-agent given only the property text and a "
-                             "scratch worktree (round 3: told which changes were already known)",
+                             "scratch worktree (told which changes were already known)",
                    "confirmed": f"main session re-ran: demo rc {r0.returncode} on the clean tree, "
                                 f"rc {r1.returncode} with the patch; baseline tests with the "
                                 f"patch: {m.group(2)} passed + the same {m.group(1)} known failures"},
